@@ -14,6 +14,7 @@
 #define VRT_ASSUME(c) __CPROVER_assume(c)
 #define VRT_ASSERT_DYN(c, id) __CPROVER_assert((c), "vassert#dyn")
 #define VRT_UB(msg) do { __CPROVER_assert(0, "UB: " msg); __CPROVER_assume(0); } while (0)
+#define VRT_SHARED(name) __CPROVER_assert(0, "shared-global: " name)
 #define VRT_SAME_OBJECT(a, b) (__CPROVER_POINTER_OBJECT(a) == __CPROVER_POINTER_OBJECT(b))
 #else
 void vrt_native_assert(int c, int id);
@@ -23,6 +24,7 @@ void vrt_native_ub(const char* msg);
 #define VRT_ASSUME(c) vrt_native_assume((c) ? 1 : 0)
 #define VRT_ASSERT_DYN(c, id) vrt_native_assert((c) ? 1 : 0, (int)(id))
 #define VRT_UB(msg) vrt_native_ub(msg)
+#define VRT_SHARED(name) ((void)0)
 #define VRT_SAME_OBJECT(a, b) 1
 #endif
 
@@ -30,6 +32,10 @@ uint64_t __undef_u64(void);
 static void vrt_memcpy(uint8_t* d, const uint8_t* s, uint64_t n){ for (uint64_t i = 0; i < n; i++) d[i] = s[i]; }
 static void vrt_memmove(uint8_t* d, const uint8_t* s, uint64_t n){ if (!VRT_SAME_OBJECT(d, s) || d <= (uint8_t*)s) { for (uint64_t i = 0; i < n; i++) d[i] = s[i]; } else { for (uint64_t i = n; i > 0; i--) d[i-1] = s[i-1]; } }
 static void vrt_memset(uint8_t* d, uint8_t v, uint64_t n){ for (uint64_t i = 0; i < n; i++) d[i] = v; }
+
+/* integers whose width is not a power of two (i24, i40, i48, i56: small aggregates returned in registers) occupy exactly bits/8 bytes */
+static inline uint64_t vrt_load_odd(const uint8_t* p, int n){ uint64_t v = 0; for (int i = 0; i < n; i++) v |= (uint64_t)p[i] << (8 * i); return v; }
+static inline void vrt_store_odd(uint8_t* p, uint64_t v, int n){ for (int i = 0; i < n; i++) p[i] = (uint8_t)(v >> (8 * i)); }
 
 static inline double __f64_from_bits(uint64_t b){ union { uint64_t u; double d; } x; x.u = b; return x.d; }
 static inline float  __f32_from_bits(uint32_t b){ union { uint32_t u; float d; } x; x.u = b; return x.d; }
